@@ -15,7 +15,10 @@ Inductive dtarget := TPath | TStream.
    stream target. *)
 Record dcfg := mkdcfg {
   dc_target : dtarget; dc_opts : wopts; dc_v1_given : bool; dc_nilroots : bool; dc_roots : list bytes;
-  dc_pre : option bytes }.
+  dc_pre : option bytes;
+  (* write faults of the output target: one entry per Write/WriteAt call the StorageCar issues on it
+     (Store.v d_faults: None = the call succeeds, Some k = only k bytes get out and the call fails) *)
+  dc_faults : list (option N) }.
 
 (* os.OpenFile(path, O_CREATE|O_TRUNC|O_WRONLY): whatever was at the path, the file now exists and is
    empty.  (Store.open_new starts from exactly this empty file.) *)
@@ -31,9 +34,9 @@ Definition dc_kind (c : dcfg) : skind :=
   KStorage (match dc_target c with TPath => true | TStream => false end).
 
 (* the direct writer the deferred one must be indistinguishable from: storage.NewWritable on the same
-   target with the same roots and options *)
+   target (same fault script) with the same roots and options *)
 Definition direct_open (c : dcfg) : res wstate :=
-  open_new (dc_kind c) (eff_opts c) (dc_nilroots c) (dc_roots c) [].
+  open_new (dc_kind c) (eff_opts c) (dc_nilroots c) (dc_roots c) (dc_faults c).
 
 (* d_inner = dcw.w; d_created = writer() has opened (created / truncated) the output file (path target);
    d_cbs = dcw.putCb (id, once) *)
